@@ -50,8 +50,7 @@ CLAIM = dict(
          "(lookups_subset_sites) and hence reported by find_undeclared_variables or an environment global "
          "(lookups_subset_undeclared); the root frame's names are fetched by every run (root_lookups_always); every name the "
          "code generator visits in a frame has a slot assigned by the analysis of that frame chain, so a load never needs an "
-         "ad-hoc context read and Symbols.ref cannot fail, for all templates whose set-block filters mention no name "
-         "(refs_never_fail_root, refs_never_fail_block; the excluded case is a real compiler AssertionError); every template "
+         "ad-hoc context read and Symbols.ref cannot fail (refs_never_fail_root, refs_never_fail_block); every template "
          "name an executed Extends/Include/Import/FromImport site can hand to the loader is yielded by "
          "find_referenced_templates unless None is yielded (site_sound, referenced_templates_sound), and by name when the "
          "expression has no dynamic part (site_sound_const). Tie: model == meta.find_undeclared_variables and == "
@@ -390,7 +389,7 @@ class Gen:
         if k == 13:
             f("set-block")
             flt = r.choice(["", "", " | upper", " | default('z')"])
-            if not self.e2e and r.random() < 0.06:      # compiler.py:1625 visits the filter in a frame that never analysed it
+            if r.random() < 0.1:      # the filter's names belong to the set block's frame (compiler.py:1625, idtracking.py:188-195)
                 flt = " | replace(%s, 'q')" % self.name(0)
             return "{%% set %s%s %%}%s{%% endset %%}" % (self.store_name(), flt, self.body(d - 1))
         if k == 14:
@@ -543,7 +542,7 @@ def run(ctx, res):
     cases = []
     seen = set()
     rng = ctx.rng("static")
-    n_static = ctx.pick(1000, 12000)
+    n_static = ctx.pick(800, 9000)
     attempts = 0
     for src in FIXED:
         cases.append(src)
@@ -819,7 +818,7 @@ def run_e2e(ctx, res, jinja2, stats):
     from jinja2 import meta
     warnings.simplefilter("ignore", RuntimeWarning)     # repr of an AsyncLoopContext leaves a never-awaited coroutine
     rng = ctx.rng("e2e")
-    nsets = ctx.pick(80, 1200)
+    nsets = ctx.pick(60, 900)
     ndata = ctx.pick(3, 5)
     renders = 0
     distinct = set()
@@ -942,10 +941,36 @@ def run_e2e(ctx, res, jinja2, stats):
                     if s is not None and s not in requested:
                         res.violate("C32:e2e:load-unattributed", f"loader was asked for {s!r} without a join_path request",
                                     dict(replay, source=s), no_input=True)
-    return {"template_sets": nsets, "renders": renders, "distinct": len(distinct), "context_lookups": lookups_total,
+    boundary = run_extension_boundary(res, jinja2)
+    return {"i18n_alias_boundary_case": boundary, "template_sets": nsets, "renders": renders, "distinct": len(distinct), "context_lookups": lookups_total,
             "load_requests": requests_total, "outcomes": outcome, "unattributed_lookups": unattributed,
             "root_prologue_lower_bound_checked": lower_checked,
             "top_render_errors": dict(sorted(messages.items(), key=lambda kv: -kv[1])[:8])}
+
+
+def run_extension_boundary(res, jinja2):
+    """One fixed case outside the generated fragment: the i18n extension's `_` global is a pass_context function that reads
+    `gettext` from the render context (ext.py `_gettext_alias`: `__context.resolve("gettext")`)."""
+    from jinja2 import meta
+    log = {"lookups": [], "sources": [], "requests": []}
+    RecContext, _RecLoader, RecEnv = make_recording(jinja2, log)
+    env = RecEnv(extensions=["jinja2.ext.i18n"])
+    env.context_class = RecContext
+    src = "{{ _('x') }}"
+    reported = set(meta.find_undeclared_variables(env.parse(src)))
+    try:
+        out = env.from_string(src).render(gettext=lambda s: s.upper())
+    except Exception as e:  # noqa
+        out = "raised:" + type(e).__name__
+    fetched = {k for _w, _c, k in log["lookups"]}
+    missing = sorted(fetched - reported - set(env.globals))
+    if missing:
+        res.violate("C32:e2e:i18n-underscore-alias:gettext",
+                    f"i18n extension, translations not installed: {src!r} rendered with gettext in the context gives {out!r}; the "
+                    f"render fetched {missing} from the context, find_undeclared_variables reports {sorted(reported)} and "
+                    f"{missing} are not environment globals",
+                    {"src": src, "extensions": ["jinja2.ext.i18n"], "data_keys": ["gettext"], "fetched": sorted(fetched)})
+    return {"fetched": sorted(fetched), "reported": sorted(reported), "output": out}
 
 
 def replay(ctx, case):
@@ -954,7 +979,7 @@ def replay(ctx, case):
     c = case["case"]
     out = {}
     if "src" in c:
-        env = jinja2.Environment()
+        env = jinja2.Environment(extensions=c.get("extensions", []))
         tree = env.parse(c["src"])
         out["undeclared"] = sorted(meta.find_undeclared_variables(tree))
         out["referenced"] = list(meta.find_referenced_templates(tree))
